@@ -187,6 +187,20 @@ return ok
                          "Schema([Rule(('x', 0), Value.equal_to(b)), Rule(('s',), Value.truthy())])", sch_beh, stubs=["cond_repr"]))
     out.append(pair_case("c14.schema.rule_dropped", ii, ipre, "Schema([Rule(('x', 0), Value.equal_to(a)), Rule(('s',), Value.falsy())])",
                          "Schema([Rule(('x', 0), Value.equal_to(b))])", sch_beh, stubs=["cond_repr"]))
+    if not ctx.quick:
+        from engine import terms as _t
+        one_arg = ["equal_to", "not_equal_to", "less_than", "greater_than", "less_than_or_equal_to", "greater_than_or_equal_to",
+                   "factor_of", "has_factor", "eq", "lt", "gt", "lte", "gte"]
+        for kind, pre in _t.CLASSES:
+            cls = {("value", None): "Value", ("value", "length"): "Value.length", ("value", "dtype"): "Value.dtype", ("key", None): "Key",
+                   ("key", "length"): "Key.length", ("key", "dtype"): "Key.dtype", ("index", None): "Index"}[(kind, pre)]
+            probe = {"value": "OBJ.filter([u, 0, 6, [1]]).result", "key": "OBJ.filter({3: u, 2: 0, 0: 1, None: 2}).result", "index": "OBJ.filter([u, 0, 'a']).result"}[kind]
+            iu = [("a", "int"), ("b", "int"), ("u", "Union[int, bool, None]")]
+            for nm in one_arg:
+                out.append(pair_case(f"c14.all.{kind}{'.' + pre if pre else ''}.{nm}", iu, ["I64(a, b)", "BU(3, u)"], f"{cls}.{nm}(a)", f"{cls}.{nm}(b)", probe))
+            out.append(pair_case(f"c14.all.{kind}{'.' + pre if pre else ''}.in_", iu, ["I64(a, b)", "BU(3, u)"], f"{cls}.in_([a, 1])", f"{cls}.in_([1, b])", probe))
+            out.append(pair_case(f"c14.all.{kind}{'.' + pre if pre else ''}.in_range", iu, ["I64(a, b)", "BU(3, u)", "0 <= 5 - a <= 3 and 0 <= 5 - b <= 3"], f"{cls}.in_range(a, 5)", f"{cls}.in_range(b, 5)", probe))
+            out.append(pair_case(f"c14.all.{kind}{'.' + pre if pre else ''}.approx", iu, ["I64(a, b)", "BU(3, u)"], f"{cls}.equal_to_approx(a, 2)", f"{cls}.equal_to_approx(b, 2)", probe))
     # ---- transitivity / rebuilt
     t3 = [("a", "int"), ("b", "int"), ("c", "int")]
     for nm, build in [
